@@ -93,9 +93,13 @@ func init() {
 	register(PropCfg{
 		ID:    "C12",
 		Level: "exploration",
-		Rule: "one evaluation = one save+restart inside a generated edit history (5-60 operations: create node of any registered type, connect type-compatible ports incl. bursts on array ports, disconnect, parameter value/name/description for every parameter type, producers, metadata set/delete, delete unused nodes) executed on a real generator.App; at every restart only the bytes of App.Schema() survive, are loaded into fresh Apps, and re-saved bytes, structure (through the public schema) and artifacts of deterministic producers are compared; the history continues on the reloaded App. Some histories start from the graph shipped in examples/graphs. " +
+		Rule: "one evaluation = one save+restart inside a generated edit history (5-60 operations: create node of any registered type, connect type-compatible ports incl. bursts on array ports, disconnect, parameter value/name/description for every parameter type, producers, metadata set/delete, delete unused nodes) executed on a real generator.App; some saves are autosaves (the file is checked the same way but the session continues on the live application, as in the edit server); at every restart only the bytes of App.Schema() survive, are loaded into fresh Apps, and re-saved bytes, structure (through the public schema) and artifacts of deterministic producers are compared; the history continues on the reloaded App. Some histories start from the graph shipped in examples/graphs. A second scenario runs the same histories in the -race build (the calls are sequential; parallelism the library might use inside save/load is judged by the race detector). " +
 			"distinct_nontrivial = distinct histories (hash of the operation log) containing at least one restart after at least one wiring edit, or starting from a shipped graph",
-		Scenarios: []ScenCfg{{Name: "edit-save-restart", Chunk: 100, QuickRuns: 12000, QuickS: 60, ThoroughRuns: 4000000, ThoroughS: 900, Procs: 2, DetQuick: 60, DetThorough: 400}},
+		Scenarios: []ScenCfg{
+			{Name: "edit-save-restart", Chunk: 100, QuickRuns: 12000, QuickS: 60, ThoroughRuns: 4000000, ThoroughS: 900, Procs: 2, DetQuick: 60, DetThorough: 400},
+			// the same histories in the -race build: save and load are sequential calls, but a library that parallelises them internally is judged by the race detector
+			{Name: "edit-save-restart-race", Race: true, Chunk: 40, QuickRuns: 2400, QuickS: 40, ThoroughRuns: 400000, ThoroughS: 400, Procs: 2, DetQuick: 12, DetThorough: 60},
+		},
 		Assumptions: []string{
 			"execution counters (version) are not part of the saved graph and are excluded from the comparison",
 			"artifacts are compared only for producers whose whole cone consists of node types that are deterministic functions of their inputs (nodes/experimental noise/texture nodes and the glTF writer are excluded by type) and whose content agrees between two independent loads",
